@@ -30,6 +30,13 @@ func c12LeanInput(s c12Seq) map[string]interface{} {
 	for _, b := range s.By {
 		links = append(links, [2]int{c12Bystander, b})
 	}
+	mem := []interface{}{}
+	if len(s.Own) > 0 {
+		for _, b := range s.Own {
+			links = append(links, [2]int{c12Owner1, b})
+		}
+		mem = append(mem, []interface{}{c12Owner1, s.Own})
+	}
 	targets := append(append([]int{}, s.Pre...), c12Sentinel)
 	ops := []map[string]interface{}{}
 	for _, op := range s.Ops {
@@ -58,7 +65,7 @@ func c12LeanInput(s c12Seq) map[string]interface{} {
 		ops = append(ops, map[string]interface{}{"op": op.Op, "unscoped": op.Unscoped, "vals": vals})
 	}
 	return map[string]interface{}{"cls": k.Class, "card1": k.Card1, "owners": c12OwnerIDs(s), "links": links,
-		"targets": targets, "next": c12Sentinel + 1, "ops": ops}
+		"targets": targets, "next": c12Sentinel + 1, "ops": ops, "mem": mem}
 }
 
 func c12StmtName(k *c12Kind, m string) string {
